@@ -29,3 +29,14 @@ W void w_filter(unsigned shape, const char* key, FOut* o) {
   o->self = bits(root); o->key = bits(root[key]); o->idx = bits(root[0UL]);
   o->key_key = bits(root[key]["b"]); o->idx_key = bits(root[0UL][key]); o->idx_idx = bits(root[0UL][0UL]);
 }
+// object-shaped filters built with the low-level API (no proxies, no key lookup while building): {"*":true} and {"a":true}
+W void w_filter_obj(unsigned star, const char* key, FOut* o) {
+  arena.reset(); ResourceManager rm(&arena);
+  VariantData v; ObjectData& ob = v.toObject();
+  StringNode* k = rm.saveString(adaptString(star ? "*" : "a"));
+  VariantData* m = ob.addMember(k, &rm);
+  if (m) m->setBoolean(true);
+  Filter root(JsonVariantConst(&v, &rm));
+  o->self = bits(root); o->key = bits(root[key]); o->idx = bits(root[0UL]);
+  o->key_key = 0; o->idx_key = 0; o->idx_idx = bits(root[0UL][0UL]);
+}
